@@ -32,7 +32,9 @@ PATHS = ("parse_expression", "parse_general_expression", "general_propensity", "
          # species in the opposite order (ExprGen.DeclarationOrder: the meaning is attached to names, not positions)
          "parse_expression@redeclared", "general_propensity@redeclared", "assignment_rule@redeclared",
          # the expression as the right-hand side of an assignment rule whose target is a PARAMETER
-         "assignment_rule_parameter")
+         "assignment_rule_parameter",
+         # ... and of an assignment rule with frequency 'dt' (executed on a rule step)
+         "assignment_rule_dt")
 
 # identifier pools: underscores, digits, and the single letters that collide with sympy constants, each of
 # them once as a species and once as a parameter
@@ -289,6 +291,22 @@ def eval_case(case):
         obs[PATHS[8]] = vals
     except Exception as e:  # noqa
         obs[PATHS[8]] = _exc(e)
+    try:
+        from bioscrape.types import Model as _Model2
+        from bioscrape.simulator import ModelCSimInterface as _Itf2
+        md = _Model2(species=list(case["sp"]) + ["RRX"], parameters=[(n, 1.0) for n in case["par"]],
+                     rules=[("assignment", {"equation": "RRX = " + case["s"]}, "dt")], initial_condition_dict=dict({n: 0.0 for n in case["sp"]}, RRX=0.0))
+        s2i_d = md.get_species2index()
+        st, pv = _vectors(s2i_d, md.get_params2index(), case)
+        itf = _Itf2(md)
+        itf.py_set_param_values(pv)
+        a_ = st.copy()
+        itf.py_apply_repeated_rules(a_, case["t"], True)
+        b_ = st.copy()
+        itf.py_apply_repeated_volume_rules(b_, case["V"], case["t"], True)
+        obs[PATHS[9]] = [float(a_[s2i_d["RRX"]]), float(b_[s2i_d["RRX"]])]
+    except Exception as e:  # noqa
+        obs[PATHS[9]] = _exc(e)
     try:
         base = _base_model(case["sp"], case["par"])
         st, pv = _vectors(base.get_species2index(), base.get_params2index(), case)
